@@ -141,6 +141,21 @@ def mutants_of_file(rel):
                     out.append(dict(file=rel, func=qual, line=n.lineno, op='stmt->pass', before=bsrc[a:b].decode('utf8')[:80], after='pass', new=new))
     if os.environ.get('MUTATE_SECOND_SET'):
         out = second_set(rel, src, bsrc, funcs)
+    if os.environ.get('MUTATE_TOP'):
+        # third set: integer constants of module-level and class-level assignments (+1 / -1), True/False flipped
+        out = []
+        def top(n, qual):
+            for c in ast.iter_child_nodes(n):
+                if isinstance(c, ast.ClassDef):
+                    top(c, (qual + '.' if qual else '') + c.name)
+                elif isinstance(c, ast.Assign):
+                    for x in ast.walk(c.value):
+                        if isinstance(x, ast.Constant) and hasattr(x, 'end_col_offset'):
+                            for desc, m in expr_mutants(x):
+                                a, b = spans_of(src, x)
+                                new = bsrc[:a] + ast.unparse(m).encode('utf8') + bsrc[b:]
+                                out.append(dict(file=rel, func=(qual or '<module>') + ':' + ast.unparse(c.targets[0])[:30], line=x.lineno, op=desc, before=ast.unparse(c)[:80], after=ast.unparse(m), new=new))
+        top(tree, '')
     # drop mutants that do not parse
     good = []
     for m in out:
